@@ -2,8 +2,14 @@
 // SPDX-License-Identifier: GPL-3.0-or-later
 
 use core::cmp::min;
+#[cfg(not(feature = "verif_sim"))]
 use std::fs;
+#[cfg(not(feature = "verif_sim"))]
 use std::fs::{File, OpenOptions, read, read_dir};
+#[cfg(feature = "verif_sim")]
+use crate::vfs as fs;
+#[cfg(feature = "verif_sim")]
+use crate::vfs::{File, OpenOptions, read, read_dir};
 use std::io::{BufWriter, Cursor, Seek, SeekFrom, Write};
 use std::path::{Path, PathBuf};
 
